@@ -512,7 +512,7 @@ func isHexOrPrefixed(s string) bool {
 }
 
 // flipCase changes the letter case of a lexeme where SML is case-insensitive
-func (g *Gen) flipCase(lex string, inHeader bool, idx int) string {
+func caseFlippable(lex string, inHeader bool) bool {
 	up := strings.ToUpper(lex)
 	flippable := false
 	switch {
@@ -530,7 +530,12 @@ func (g *Gen) flipCase(lex string, inHeader bool, idx int) string {
 	case inHeader:
 		flippable = sfRe.MatchString(lex) || up == "W" || up == "[W]" || up == "H->E" || up == "H<-E" || up == "H<->E"
 	}
-	if !flippable {
+	return flippable
+}
+
+func (g *Gen) flipCase(lex string, inHeader bool, idx int) string {
+	up := strings.ToUpper(lex)
+	if !caseFlippable(lex, inHeader) {
 		return lex
 	}
 	switch g.pick(3) {
